@@ -83,6 +83,31 @@ CLAIMED = {
   technique="read-set (type-resolved field loads / getter calls) vs hashed-set (access-path influence of the hash input) cross-check",
   ref="C11"),
 }
+# clauses added after the second round of seeded changes / the mutant self test (DESIGN.md section 2a)
+ALSO = {
+ "C01": "a pointer returned together with a found flag is used only under found (x/skyway/keeper)",
+ "C03": "every external component wired in app.New with the application's message router is classified, and one that executes sender-chosen nested messages is opened by the decorator (authz MsgExec; ICA host and wasm are recorded known findings); bindings/entries that may belong to another principal (ERC20->denom, relay reports) are written only when absent",
+ "C05": "the persisted counter value is exactly the id handed out; GetCheckpoint is recomputed from content and given ChainInfo.SmartContractUniqueID at every call site; feesOrDefault substitutes a missing record only",
+ "C06": "each refusing comparison of the duplicate scan is evaluated for every existing entry; the election setter clears the signatures itself",
+ "C07": "only the three admitted conditions hold on every edge into the cache flush",
+ "C08": "no calendar arithmetic on process-local-zone times before UTC(); shared sync.Map/atomic values count as in-memory state",
+ "C09": "methods on possibly-unset math.Int fields of the libcons structs; every recover() is called directly by a deferred function; triage entries with a checkable reason re-verify it",
+ "C11": "the hash input passes through no normalising function",
+ "C12": "the unjailed-set snapshot is rewritten on every successful run; the jail record is read and written under one key value",
+ "C13": "the evidence checkpoint is recomputed from content with the chain's current deployment id; every non-nil Result of VerifyEvidence carries the tallied totals",
+ "C14": "every queued UpdateValset counts as pending; community/security fee from the relayer fee as stored",
+ "C15": "rate stored exactly as proposed; an ongoing window accumulates; the usage counter is never deleted on a runtime path",
+ "C16": "coins moved are the amount parameter itself; GetAuthorityMetadata returns the stored record or the empty value; no in-memory state in x/tokenfactory",
+ "C17": "the requester passed on is Metadata.Creator; no in-memory copy of jobs",
+ "C18": "the licence paid out is looked up under the key that is deleted; the funder variable is only set under HasBalance; the sale handler runs on the attestation's cached context; no in-memory state in x/paloma/keeper",
+ "C19": "the iterator's priority bound is the next index entry's priority whoever owns it; the mempool capacity is never fed from configuration",
+}
+for k, v in ALSO.items():
+    if k in CLAIMED and "NOT decided" in CLAIMED[k]["text"]:
+        a, b = CLAIMED[k]["text"].split("NOT decided", 1)
+        CLAIMED[k]["text"] = a.rstrip() + " Also decides: " + v + ". NOT decided" + b
+    elif k in CLAIMED:
+        CLAIMED[k]["text"] += " Also decides: " + v + "."
 props = [json.loads(l) for l in open(os.path.join(ROOT, "properties.jsonl"))]
 PENDING = "structural rules designed in DESIGN.md but not yet built in this checkout"
 NA = {}
